@@ -83,7 +83,7 @@ class ODMLWriter:
         else:
             # Render the data before opening the file in case we get any exception.
             data = self.to_string(odml_document, **kwargs)
-            with open(filename, 'w') as file:
+            with open(filename, 'w', encoding='utf-8') as file:
                 file.write(data)
 
     def to_string(self, odml_document, **kwargs):
@@ -204,7 +204,7 @@ class ODMLReader:
             return self.doc
 
         if self.parser == 'YAML':
-            with open(file) as yaml_data:
+            with open(file, encoding='utf-8') as yaml_data:
                 try:
                     yaml.SafeLoader.add_constructor("tag:yaml.org,2002:python/unicode",
                                                     unicode_loader_constructor)
@@ -226,7 +226,7 @@ class ODMLReader:
             return self.doc
 
         if self.parser == 'JSON':
-            with open(file) as json_data:
+            with open(file, encoding='utf-8') as json_data:
                 try:
                     self.parsed_doc = json.load(json_data)
                 except ValueError as err:  # Python 2 does not support JSONDecodeError
